@@ -10,8 +10,12 @@ Open Scope string_scope.
 Definition model_lint_pipeline : list string :=
   ["save_config"; "fill_with_curated"; "lint_group_lint"; "restore_config";
    "remove_overlaps"; "remove_ignored"; "problem_text_of_span"; "wrap"].
-(* Wasm.import_words: `if init_len <? length (s_user st') then synchronize st' else st'` *)
-Definition model_sync_condition : string := "self.user_dictionary.word_count() > init_len".
+(* Wasm.import_words: `let before := s_user st in .. if dict_eqb (s_user st') before then st' else synchronize st'` *)
+Definition model_sync_condition : string := "self.user_dictionary != before".
+Definition model_import_words_steps : list string :=
+  ["snapshot_before"; "extend_words"; "default_metadata"; "compare_with_snapshot"; "synchronize"].
+(* Wasm.step on CSetConfig: None = the early `?` return; Some c = cfg_merge_from (cfg_clear (s_cfg st)) c *)
+Definition model_set_config_steps : list string := ["parse_or_return_err"; "clear"; "merge_new_config"].
 (* Wasm.synchronize; Wasm.step on CApply (push_record, then apply); CImportIgnored (fold hadd = append);
    Wasm.ignore_lint (ctx of the inner lint on (text, wlang l, s_lint_dict)) *)
 Definition model_synchronize_steps : list string :=
@@ -19,12 +23,27 @@ Definition model_synchronize_steps : list string :=
 
 Lemma wasm_source_shape :
   wasm_lint_pipeline = model_lint_pipeline
-  /\ wasm_import_words_init_len = "self.user_dictionary.word_count()"
+  /\ wasm_import_words_before = "self.user_dictionary.clone()"
   /\ wasm_import_words_sync_condition = model_sync_condition
+  /\ wasm_import_words_steps = model_import_words_steps
+  /\ wasm_set_config_json_steps = model_set_config_steps
+  /\ wasm_set_config_object_steps = model_set_config_steps
   /\ wasm_synchronize_steps = model_synchronize_steps
   /\ wasm_apply_suggestion_steps = ["push_record"; "apply_to_lint_span"]
   /\ wasm_import_ignored_steps = ["append"]
   /\ wasm_ignore_lint_steps = ["parser_of_lint_language"; "linter_dictionary"; "ignore_inner_on_document"].
+Proof. repeat split; vm_compute; reflexivity. Qed.
+
+(* what the premise `ctx_ignores_dict` (the context of an ignored lint is the same under every user
+   dictionary) rests on in the source: LintContext::from_lint takes the tokens of [start-2,start), the
+   problem span and [end,end+2), and blanks the quote twin index and the WORD METADATA of each; the
+   dictionary enters Document::parse only through that metadata; the two parsers harper-wasm builds take no
+   dictionary.  (The harness monitors the premise itself on every ignore/lint pair.) *)
+Lemma wasm_context_shape :
+  lint_context_steps = ["problem_tokens"; "prequel_two_before_start"; "sequel_two_after_end"; "to_fat";
+                        "blank_quote_twin_loc"; "blank_word_metadata"]
+  /\ document_parse_dictionary_uses = ["dictionary.get_word_metadata(word_source)"]
+  /\ wasm_parser_constructors = ["PlainEnglish"; "Markdown::default()"].
 Proof. repeat split; vm_compute; reflexivity. Qed.
 
 (* what serde derives the JSON text from = what the printers of LintJson.v write *)
